@@ -5,6 +5,11 @@ CHECKS = {
     technique="TLA+ spec SeqWindow.tla model-checked by TLC; TLC-generated behaviours replayed on real kgo/kfake (binding R)",
     text="SeqWindow.tla models the per-(producer,partition) sequence window with the modulus as a constant (16 standing for 2^31). TLC checks its invariants exhaustively, then emits every behaviour to depth 2-3 plus simulated depth-9 behaviours; each is replayed step by step on kgo's incrementSequence, on kfake's pidwindow and on a running kfake cluster through raw idempotent ProduceRequests at the real 2^31 boundary, comparing accept/duplicate(original offset)/OUT_OF_ORDER/fenced with the spec.",
     note="kfake stands in for Kafka; the scaled modulus is mapped so the model's wrap is the real wrap; large-n arithmetic is additionally checked on boundary classes with 64-bit arithmetic in the harness."),
+ "C34": dict(
+    level="exploration", design="5/C34, 4.13",
+    technique="TLA+ oracle ACL.tla evaluated by TLC over enumerated ACL sets; decisions compared with kfake (binding O1), sample replayed end-to-end",
+    text="ACL.tla states Kafka's authorizer decision (DENY first, implied Describe/DescribeConfigs, literal/wildcard/prefixed, User:*, host *, authorizeByResourceType with DENY dominance). TLC enumerates ACL sets over a 336-entry universe (thorough: all singletons, all DENYxALLOW pairs, 30k random sets of 2-4) and computes every decision; the runner loads each set into kfake's ACL store and compares all 132 decisions per set, and replays a sample through SASL users, CreateACLs, Metadata authorized-operations and InitProducerID, including the superuser bypass.",
+    note="Small alphabet (5 resource names, prefix relation by table); the oracle is a transcription of Kafka's rules anchored by ASSUMEd decisions; any-resource queries only on operations without implication rules."),
 }
 
 NOT_APPLICABLE = {
